@@ -480,7 +480,7 @@ pub fn plans(tier: &str) -> Vec<(Params, Cost)> {
         if t {
             v.push((Params { faults: true, ..base(&format!("two-compactors/faults/{backend}"), backend, 2) }, Cost { preempt: 1, fault: 1, ..Cost::ZERO }));
             v.push((Params { l0_a: 2, l0_b: 2, l1: 2, cycles: 2, ..base(&format!("two-compactors/l0+l1-two-cycles/{backend}"), backend, 2) }, Cost { preempt: 2, ..Cost::ZERO }));
-            v.push((Params { l0_a: 2, l0_b: 0, l1: 2, cycles: 1, crash: true, clock: true, ..base(&format!("two-compactors/l0+l1-crash+expiry/{backend}"), backend, 2) }, Cost { preempt: 1, crash: 1, clock: 1, ..Cost::ZERO }));
+            v.push((Params { l0_a: 2, l0_b: 0, l1: 2, cycles: 1, crash: true, clock: true, ..base(&format!("two-compactors/l0+l1-crash+expiry/{backend}"), backend, 2) }, Cost { preempt: if backend == "object-store" { 0 } else { 1 }, crash: 1, clock: 1, ..Cost::ZERO }));
         }
     }
     v
